@@ -15,3 +15,5 @@ PY
 cd /verif && VERIF_NO_CANARY=1 ./check $PID 2>&1 | grep -E "^(VIOLATION|UNDECIDED|KNOWN|property=)" | cut -c1-260
 echo "exit=${PIPESTATUS[0]}"
 git -C /repo checkout -- "$2"
+# the evidence files written by a mutated run must never be committed
+git -C /verif checkout -- evidence 2>/dev/null
